@@ -12,15 +12,16 @@ Section CoreProofs.
 
   Notation ev := (fun l (c : comp) (s : cst) => eval q blanks AND c s l).
 
-  Lemma do_action_keeps s l a : stopped mx (do_action q blanks s l a) = stopped mx s /\ match_count mx (do_action q blanks s l a) = match_count mx s
-    /\ scan_count mx (do_action q blanks s l a) = scan_count mx s /\ adv mx (do_action q blanks s l a) = adv mx s /\ pln mx (do_action q blanks s l a) = pln mx s.
-  Proof. destruct a; cbn; try (destruct (rev _)); cbn; auto. Qed.
+  Lemma do_action_keeps s l a : stopped mx (do_action q blanks AND s l a) = stopped mx s /\ match_count mx (do_action q blanks AND s l a) = match_count mx s
+    /\ scan_count mx (do_action q blanks AND s l a) = scan_count mx s /\ adv mx (do_action q blanks AND s l a) = adv mx s /\ pln mx (do_action q blanks AND s l a) = pln mx s.
+  Proof. destruct a as [? ?|? ?|? ?|? ?|? ?|g]; cbn; try (destruct (rev _)); cbn; auto. destruct g; cbn; try (destruct (dget _ _ _) as [[]|]); cbn; auto. Qed.
 
   Lemma eval_keeps c s l : stopped mx (fst (eval q blanks AND c s l)) = stopped mx s /\ match_count mx (fst (eval q blanks AND c s l)) = match_count mx s
     /\ scan_count mx (fst (eval q blanks AND c s l)) = scan_count mx s /\ adv mx (fst (eval q blanks AND c s l)) = adv mx s /\ pln mx (fst (eval q blanks AND c s l)) = pln mx s.
   Proof.
-    destruct c as [b|a|b a]; cbn; auto using do_action_keeps.
-    destruct (beval q blanks s l b); cbn; auto using do_action_keeps.
+    destruct c as [b|a|b a|g]; cbn; auto using do_action_keeps.
+    - destruct (beval q blanks s l b); cbn; auto using do_action_keeps.
+    - apply (do_action_keeps s l (Agg g)).
   Qed.
 
   (** no CORE component stops or skips: every line is "calm" *)
@@ -35,10 +36,13 @@ Section CoreProofs.
       right, on the state its predecessors left *)
   Theorem core_line_vote cs e s l : stopped mx s = false -> (oeqb e (pln mx s) && is_nil l) = false ->
     core_m q blanks AND cs e s l =
-      (fst (seq_eval cst comp (ev l) AND cs s (negb AND)), negb (snd (seq_eval cst comp (ev l) AND cs s (negb AND)))).
+      (fst (seq_eval cst comp (ev l) AND cs (ensure cs s) (negb AND)), negb (snd (seq_eval cst comp (ev l) AND cs (ensure cs s) (negb AND)))).
   Proof.
-    intros Hs Hb. unfold core_m. rewrite Hb. unfold matches.
-    rewrite (adj_all_calm cst comp (stopped mx) (fun _ => false) (fun s0 => s0) (ev l) (fun s0 => s0) false AND cs s (negb AND) Hs eq_refl (core_calm l cs s Hs)).
+    intros Hs Hb. unfold core_m. cbv zeta.
+    assert (Hp: pln mx (ensure cs s) = pln mx s) by (unfold ensure; destruct (frozen mx s); reflexivity).
+    assert (Hs': stopped mx (ensure cs s) = false) by (unfold ensure; destruct (frozen mx s); exact Hs).
+    rewrite Hp, Hb. unfold matches.
+    rewrite (adj_all_calm cst comp (stopped mx) (fun _ => false) (fun s0 => s0) (ev l) (fun s0 => s0) false AND cs (ensure cs s) (negb AND) Hs' eq_refl (core_calm l cs (ensure cs s) Hs')).
     reflexivity.
   Qed.
 
@@ -78,13 +82,13 @@ Theorem lt_is_le_refuted : cmp_num (mkQ true false false) Lt 10 10 = true /\ cmp
 Proof. split; reflexivity. Qed.
 
 Theorem string_compare_refuted :
-  let s := rs0 mx (mkMx [] []) in
+  let s := rs0 mx (mkMx [] [] []) in
   beval (mkQ false true false) [] s [[57]; [49; 48]] (BCmp Gt (NHdr 0) (NHdr 1)) = true /\     (* "9" above "10" *)
   beval clean [] s [[57]; [49; 48]] (BCmp Gt (NHdr 0) (NHdr 1)) = false.
 Proof. split; reflexivity. Qed.
 
 Theorem pop_drops_two_refuted :
-  let s := with_mx (rs0 mx (mkMx [] [])) (mkMx [] [(1, [VI 1; VI 2; VI 3])]) in
-  lookup 1 (stacks (x mx (do_action (mkQ false false true) [] s [] (Pop 9 1)))) = Some [VI 1] /\
-  lookup 1 (stacks (x mx (do_action clean [] s [] (Pop 9 1)))) = Some [VI 1; VI 2].
+  let s := with_mx (rs0 mx (mkMx [] [] [])) (mkMx [] [(1, [VI 1; VI 2; VI 3])] []) in
+  lookup 1 (stacks (x mx (do_action (mkQ false false true) [] true s [] (Pop 9 1)))) = Some [VI 1] /\
+  lookup 1 (stacks (x mx (do_action clean [] true s [] (Pop 9 1)))) = Some [VI 1; VI 2].
 Proof. split; reflexivity. Qed.
